@@ -1696,6 +1696,11 @@ theorem HashOKOn.mono {H : HashFn} {S S' : Bytes → Prop} (h : HashOKOn H S) (h
 
 theorem HashOKOn.hlen {H : HashFn} {S : Bytes → Prop} (hk : HashOKOn H S) : HashLen H := hk.len
 
+/-- DEPRECATED bridge (kept only so that files not yet ported keep building): the contradictory `HashOK` gives
+    `HashOKOn` for every `S`.  New theorems must not take `HashOK`. -/
+theorem HashOK.toOn {H : HashFn} (hk : HashOK H) (S : Bytes → Prop) : HashOKOn H S :=
+  ⟨fun _ _ _ _ h => hk.inj h, hk.len⟩
+
 /-- a violation of `NoCollOn` is an explicit collision among inputs of `S` -/
 def CollisionIn (H : HashFn) (S : Bytes → Prop) : Prop := ∃ x y, S x ∧ S y ∧ x ≠ y ∧ H x = H y
 
